@@ -9,6 +9,7 @@ import Driver.NumMode
 import Driver.NamesMode
 import Driver.PipeMode
 import Driver.ProofMode
+import Driver.FrontMode
 /-! `osmt-model <mode> <file>`: line-protocol driver around the executable models and kernels. -/
 def main (args : List String) : IO UInt32 := do
   match args with
@@ -62,6 +63,10 @@ def main (args : List String) : IO UInt32 := do
   | ["frames", path] =>
     let txt ← IO.FS.readFile path
     for l in Driver.runFrames (txt.splitOn "\n") do IO.println l
+    return 0
+  | ["front", path] =>
+    let txt ← IO.FS.readFile path
+    for l in Driver.runFront (txt.splitOn "\n") do IO.println l
     return 0
   | ["fk", path] =>
     let txt ← IO.FS.readFile path
